@@ -84,6 +84,15 @@ CLAIMED["C14"] = (
     "rotations, half-integer positions, several components, orders 0/1 compared voxel-by-voxel with the Coq model; order "
     "independence, 2-D projection = sum over z, and load-back through SubtomogramLoader (exact / approximate) by oracle.",
     "regenerated anchors + Coq theorems + in-Coq voxel correspondence")
+CLAIMED["C15"] = (
+    "Theorems (Coq): binned length = floor(s/b), the kept prefix is the largest multiple of b, blocks tile it (every kept voxel "
+    "belongs to exactly one block/offset, no block reaches the dropped remainder); for every b > 1 and scale != 0 the translated "
+    "molecule satisfies b*c' + (b-1)/2 = c (same physical point) for single and batch loaders, b = 1 is a copy; voxel k / offset a of "
+    "the binned box is voxel b*k+a of the b-times larger original box. Tie: divmod, slice stop, tr and new scale regenerated from "
+    "bin_image / SubtomogramLoader.binning / BatchLoader.binning; bin_image on integer images of random shapes x b (numpy + dask "
+    "chunkings) compared exactly inside Coq; binning() scale/positions/ids compared inside Coq; binned.load == block-sum of the "
+    "larger original load (exact integers, numpy/dask, compute flags, single/batch) by metamorphic oracle.",
+    "regenerated anchors + Coq theorems (lia/field) + in-Coq correspondence")
 NOT_YET = "machinery for this property is not built yet in this revision (see DESIGN.md §6 for the planned model)"
 
 def main():
